@@ -12,6 +12,7 @@ C text of the working tree on every run.
   main_registers_atexit / main_tears_down_after_return : bool
                                     how the `main` wrapper arranges the collector's teardown
   exception_error_exits    : bool   Exception_Error (uncaught exception) leaves only through exit()
+  gc_mitems_rule           : nat -> nat   the collection threshold rule (tuning; theorems hold for any)
   gc_life_shape            : bool   conjunction of the remaining fixed shapes (listed below); a
                                     shape that no longer matches makes it false and names itself
                                     in gc_life_shape_failed
@@ -35,6 +36,43 @@ def _loops_over_freenum(body):
             j += 1
         out.append(re.sub(r'\s+', ' ', body[i:j + 1]))
     return out
+
+
+def _sweep_pends_unmarked_nonroot(sw):
+    """The compaction loop `while (i < gc->nslots)` appends gc->entries[i].ptr to the pending list
+    exactly when the entry is occupied, unmarked and not a root.  Accepted shapes (the condition under
+    which the append is reached is computed from them, it must be  hash!=0 & !marked & !root ):
+      skips    if (A or B ...) { i++; continue; }      before the append, atoms among
+               `gc->entries[i].hash is 0`, `gc->entries[i].marked`, `gc->entries[i].root`
+      guard    if (not gc->entries[i].root and not gc->entries[i].marked) { append ...   (either order)"""
+    if not sw:
+        return False
+    flat = re.sub(r'\s+', ' ', sw)
+    m = re.search(r'while \(i < gc->nslots\) \{(.*?)gc->freelist\[gc->freenum\] = gc->entries\[i\]\.ptr; gc->freenum\+\+;', flat)
+    if not m:
+        return False
+    pre = m.group(1)
+    atoms = {'gc->entries[i].hash is 0': 'empty', 'gc->entries[i].marked': 'marked', 'gc->entries[i].root': 'root'}
+    excluded = set()
+    rest = pre
+    for sk in re.finditer(r'if \(([^{}]*?)\) \{ i\+\+; continue; \}', pre):
+        for a in re.split(r'\s+or\s+', sk.group(1).strip()):
+            a = a.strip()
+            if a not in atoms:
+                return False
+            excluded.add(atoms[a])
+        rest = rest.replace(sk.group(0), '', 1)
+    rest = rest.strip()
+    if rest:
+        g = re.fullmatch(r'if \(([^{}]*)\) \{', rest)
+        if not g:
+            return False
+        for a in re.split(r'\s+and\s+', g.group(1).strip()):
+            mm = re.fullmatch(r'not (gc->entries\[i\]\.(?:marked|root))', a.strip())
+            if not mm:
+                return False
+            excluded.add(atoms[mm.group(1)])
+    return excluded == {'empty', 'marked', 'root'}
 
 
 def generate(repo, emit, src, func_body):
@@ -93,17 +131,46 @@ def generate(repo, emit, src, func_body):
     grem = func_body(gc, r'static\s+void\s+GC_Rem\s*\(var self, var key\)\s*\{')
     gdel = func_body(gc, r'static\s+void\s+GC_Del\s*\(var self\)\s*\{')
     gexit = func_body(gc, r'void\s+Cello_Exit\s*\(void\)\s*\{')
-    rule = r'gc->mitems = gc->nitems \+ gc->nitems / 2 \+ 1 ;'.replace(' ;', ';')
+    # collection threshold: gc->mitems = <expression over gc->nitems>; the same in GC_Sweep and GC_Rem.
+    # It is TUNING (when a collection runs): emitted as the function gc_mitems_rule, the theorems hold for any.
+    def mitems_expr(body):
+        m = re.search(r'gc->mitems = ([^;]*);', re.sub(r'\s+', ' ', body or ''))
+        return m.group(1).strip() if m else None
+
+    def to_coq(e):
+        """small arithmetic expressions over gc->nitems: literals, + * /, parentheses (C unsigned = nat here)"""
+        e2 = e.replace('gc->nitems', 'n')
+        if not re.fullmatch(r'[n0-9+*/() ]+', e2) or re.search(r'\d{7,}', e2):
+            return None
+        depth = 0
+        for ch in e2:
+            depth += ch == '('; depth -= ch == ')'
+            if depth < 0:
+                return None
+        if depth or re.search(r'[+*/]\s*[+*/)]|\(\s*[+*/]|[n0-9)]\s+[n0-9(]|^\s*[+*/]|[+*/]\s*$|\(\s*\)', e2):
+            return None
+        return e2
+    e_sw, e_rem = mitems_expr(func_body(gc, r'void\s+GC_Sweep\s*\(struct GC\*\s*gc\)\s*\{')), mitems_expr(grem)
+    coq_rule = to_coq(e_sw) if (e_sw is not None and e_sw == e_rem) else None
+    emit('gc_mitems_rule', None if coq_rule is None else
+         'Definition gc_mitems_rule (n : nat) : nat := %s.   (* source: gc->mitems = %s; in GC_Sweep and GC_Rem *)'
+         % (coq_rule, e_sw))
     need('GC_Set returns when not running', has(gset, r'\{ struct GC\* gc = self; if \(not gc->running\) \{ return; \}'))
     need('GC_Set collects when nitems > mitems', has(gset, r'if \(gc->nitems > gc->mitems\) \{ GC_Mark\(gc\); GC_Sweep\(gc\); \}'))
     need('GC_Rem returns when not running', has(grem, r'if \(not gc->running\) \{ return; \} GC_Rem_Ptr\(gc, key\);'))
-    need('GC_Rem mitems rule', has(grem, rule))
-    need('GC_Sweep mitems rule', has(sw, rule))
-    need('GC_Sweep pends unmarked non-root entries', has(sw, r'if \(not gc->entries\[i\]\.root and not gc->entries\[i\]\.marked\) \{ gc->freelist\[gc->freenum\] = gc->entries\[i\]\.ptr; gc->freenum\+\+;'))
+    need('GC_Rem applies the mitems rule after GC_Rem_Ptr and GC_Resize_Less',
+         has(grem, r'GC_Rem_Ptr\(gc, key\); GC_Resize_Less\(gc\); gc->mitems = [^;]*; \}$'))
+    need('GC_Sweep applies the mitems rule after GC_Resize_Less, before the finaliser loop',
+         has(sw, r'GC_Resize_Less\(gc\); gc->mitems = [^;]*; for \(size_t i = 0; i < gc->freenum; i\+\+\)'))
+    need('GC_Sweep pends exactly the unmarked non-root entries', _sweep_pends_unmarked_nonroot(sw))
     need('GC_Del sweeps first', has(gdel, r'\{ struct GC\* gc = self; GC_Sweep\(gc\);'))
     need('Cello_Exit deletes the collector', has(gexit, r'del_raw\(current\(GC\)\);'))
     rp = rem and re.sub(r'\s+', ' ', rem)
-    need('GC_Rem_Ptr finalises a table hit', bool(rp) and 'gc->nitems--; dealloc(destruct(freeitem)); return;' in rp)
+    # a table hit: the entry's pointer is saved, the entry is taken out (how is C17's subject: inline
+    # back-shift or a helper), then the object is finalised and GC_Rem_Ptr returns
+    need('GC_Rem_Ptr finalises a table hit', bool(rp) and re.search(
+        r'if \(gc->entries\[i\]\.ptr (is|==) ptr\) \{ var freeitem = gc->entries\[i\]\.ptr; '
+        r'(?:(?!dealloc|return|freeitem).)*? dealloc\(destruct\(freeitem\)\); return; \}', rp) is not None)
 
     al = src('src/Alloc.c')
     delby = func_body(al, r'static\s+void\s+del_by\s*\(var self, int method\)\s*\{')
